@@ -2743,6 +2743,7 @@ func specStoreSame(pConn *PFCPConn) bool {
 //@   ensures C02.mod.reply: typeIs[*message.SessionModificationRequest](msg) ==> typeIs[*message.SessionModificationResponse](reply) && dynRef(reply) != 0
 //@   ensures C02.mod.rejected: typeIs[*message.SessionModificationRequest](msg) && err != nil ==> specModResp(reply).Header != nil && specModResp(reply).Header.SequenceNumber == specModReq(msg).Header.SequenceNumber && specModResp(reply).Cause != nil && specIEu8(specModResp(reply).Cause) == ie.CauseRequestRejected
 //@   ensures C03.mod.rejected: err != nil ==> specOldRulesUntouched() && specStoreSame(pConn)
+//@   ensures C02.mod.stored: err == nil && specMsgSEID(msg) != 0 ==> specHasSession(pConn, specMsgSEID(msg)) && (specModReq(msg).CPFSEID != nil && specIEokFSEID(specModReq(msg).CPFSEID) ==> specSession(pConn, specMsgSEID(msg)).remoteSEID == specIEfFSEIDSEID(specModReq(msg).CPFSEID)) && (specModReq(msg).CPFSEID == nil || !specIEokFSEID(specModReq(msg).CPFSEID) ==> specSession(pConn, specMsgSEID(msg)).remoteSEID == old[uint64](specSession(pConn, specMsgSEID(msg)).remoteSEID))
 //@   ensures C03.mod.unknown: typeIs[*message.SessionModificationRequest](msg) && !old[bool](specHasSession(pConn, specMsgSEID(msg))) ==> err != nil && specModResp(reply).Header.SEID == 0 && glen("dp") == old[int](glen("dp"))
 //@   ensures C03.mod.calls: glen("dp") <= old[int](glen("dp"))+2 && (err == nil ==> glen("dp") == old[int](glen("dp"))+2 && gfield("dp.method", gentry("dp", old[int](glen("dp")))) == uint64(upfMsgTypeMod) && gfield("dp.method", gentry("dp", old[int](glen("dp"))+1)) == uint64(upfMsgTypeDel))
 //@   loop 1 invariant C03.mod.l1.private: !allocated(session.pdrs) && !allocated(session.fars) && !allocated(session.qers) && !allocated(addPDRs) && !allocated(addFARs) && !allocated(addQERs) && specOldRulesUntouched() && specStoreSame(pConn)
